@@ -491,7 +491,7 @@ let mut r9_out: Vec<ServerSocketInfo> = Vec::new();
 
 impl Accept {
 
-//@extract file=actix-server/src/accept.rs item="impl Accept / fn next" ret=r props=C04,C08
+//@extract file=actix-server/src/accept.rs item="impl Accept / fn next" ret=r props=C04,C08,C06
 //@spec
     requires
         self.next < self.handles@.len(),
@@ -499,7 +499,7 @@ impl Accept {
         *r == self.handles@[self.next as int],
 //@end
 
-//@extract file=actix-server/src/accept.rs item="impl Accept / fn set_next" props=C04
+//@extract file=actix-server/src/accept.rs item="impl Accept / fn set_next" props=C04,C06
 //@spec
     requires
         old(self).next < old(self).handles@.len(),
@@ -511,7 +511,7 @@ impl Accept {
         final(self).same_ctl(old(self)),
 //@end
 
-//@extract file=actix-server/src/accept.rs item="impl Accept / fn remove_next" props=C01,C08
+//@extract file=actix-server/src/accept.rs item="impl Accept / fn remove_next" props=C01,C08,C06
 //@spec
     requires
         old(self).wf(),
@@ -524,7 +524,7 @@ impl Accept {
         final(self).same_ctl(old(self)),
 //@end
 
-//@extract file=actix-server/src/accept.rs item="impl Accept / fn send_connection" ret=r props=C01,C02,C04,C08
+//@extract file=actix-server/src/accept.rs item="impl Accept / fn send_connection" ret=r props=C01,C02,C04,C08,C06
 //@spec
     requires
         old(self).wf(),
@@ -569,7 +569,7 @@ impl Accept {
 //@end
 
 
-//@extract file=actix-server/src/accept.rs item="impl Accept / fn accept_one" props=C01,C04,C08 trace_calls="send_connection?"
+//@extract file=actix-server/src/accept.rs item="impl Accept / fn accept_one" props=C01,C04,C08,C06 trace_calls="send_connection?"
 //@spec
     requires
         old(self).wf(),
@@ -626,7 +626,7 @@ impl Accept {
                     // the worker at the previous `next` is not available but some worker is: one step closer to it
                     lemma_rotdist_dec(self.handles@, self.avail@, avail0, idx, next0);
                 }
-//@loop 1
+//@loop head="loop"
         invariant
             self.wf(),
             self.handles@.len() > 0,
@@ -645,7 +645,7 @@ impl Accept {
                 &&& forall|j: int| 0 <= j < steps ==> !old(self).avail@.contains((#[trigger] rot_handle(old(self), j)).spec_idx())
             },
         decreases self.handles@.len(), rotdist(self.handles@, self.avail@, self.next as int),
-//@loop 2
+//@loop head="while let Err(c) =" optional
         invariant_except_break
             self.handles@.len() > 0,
             conn.wf(), conn.token < n_listeners(),
@@ -663,7 +663,7 @@ impl Accept {
 //@end
 
 
-//@extract file=actix-server/src/accept.rs item="impl Accept / fn set_timeout" props=C05
+//@extract file=actix-server/src/accept.rs item="impl Accept / fn set_timeout" props=C05,C06
 //@spec
     ensures
         final(self).timeout.is_some(),
@@ -674,7 +674,7 @@ impl Accept {
         final(self).poll == old(self).poll && final(self).waker_queue == old(self).waker_queue && final(self).paused == old(self).paused,
 //@end
 
-//@extract file=actix-server/src/accept.rs item="impl Accept / fn register" ret=r props=C05
+//@extract file=actix-server/src/accept.rs item="impl Accept / fn register" ret=r props=C05,C06
 //@spec
     requires
         old(info).token < self.reg().token_bound(),
@@ -684,7 +684,7 @@ impl Accept {
         info_same_but_reg(final(info), old(info)),
 //@end
 
-//@extract file=actix-server/src/accept.rs item="impl Accept / fn register_logged" props=C05
+//@extract file=actix-server/src/accept.rs item="impl Accept / fn register_logged" props=C05,C06
 //@spec
     requires
         old(info).token < self.reg().token_bound(),
@@ -694,7 +694,7 @@ impl Accept {
         info_same_but_reg(final(info), old(info)),
 //@end
 
-//@extract file=actix-server/src/accept.rs item="impl Accept / fn deregister_logged" props=C05
+//@extract file=actix-server/src/accept.rs item="impl Accept / fn deregister_logged" props=C05,C06
 //@spec
     ensures
         !final(info).lst.registered(),   // [C05]
@@ -730,7 +730,7 @@ impl Accept {
 //@end
 
 #[verifier::exec_allows_no_decreases_clause]
-//@extract file=actix-server/src/accept.rs item="impl Accept / fn accept" props=C01,C03,C05
+//@extract file=actix-server/src/accept.rs item="impl Accept / fn accept" props=C01,C03,C05,C06
 //@spec
     requires
         old(self).wf(),
@@ -780,7 +780,7 @@ impl Accept {
 //@end
 
 #[verifier::exec_allows_no_decreases_clause]
-//@extract file=actix-server/src/accept.rs item="impl Accept / fn accept_all" props=C03,C04,C05
+//@extract file=actix-server/src/accept.rs item="impl Accept / fn accept_all" props=C03,C04,C05,C06
 //@spec
     requires
         old(self).wf(),
@@ -820,7 +820,7 @@ impl Accept {
 //@end
 
 
-//@extract file=actix-server/src/accept.rs item="impl Accept / fn process_timeout" props=C05
+//@extract file=actix-server/src/accept.rs item="impl Accept / fn process_timeout" props=C05,C06
 //@spec
     requires
         old(self).wf(),
@@ -875,7 +875,7 @@ impl Accept {
         sockets_wf(old(sockets)@, old(self).reg().token_bound()),
         i5(old(self), old(sockets)@),
     ensures
-        final(self).wf(),   // [C08]
+        final(self).wf(),   // [C08,C06]
         sockets_wf(final(sockets)@, final(self).reg().token_bound()),
         !exit ==> i5(final(self), final(sockets)@),   // [C05]
         final(self).poll == old(self).poll,
